@@ -11,6 +11,36 @@ NOTE = ("Trusted: Lean 4.33 kernel (axioms audited per theorem to lie within pro
         "types; IEEE rounding is covered by the bit-exact tie plus the exact-rational oracle, not by proof.")
 
 CLAIMED = {
+    "C05": dict(
+        text=("Kernel-checked theorems over any commutative semiring: for each of the four transpose-flag pairs the model of `matmul` returns "
+              "a value iff the inner dimensions agree, of length m*n, whose (i,j) entry is sum_k op(A)[i,k]*op(B)[k,j]; non-conformable or malformed "
+              "operands give a panic; the blocked variant equals the plain one for every block size >= 1 (proved for every scalar type with only "
+              "Add/Mul/Zero by projecting both loop nests onto one cell, so the k-order is identical and the Float instances coincide bit for bit for "
+              "the non-TT flags); xtx = X^T X and symmetric; the 16 Dot impls x 4 ownership forms are checked by `decide` over a wiring table regenerated "
+              "from dot.rs on every run. The model is tied bit for bit to the Rust code on all shapes 1..9^3 x flags x block sizes (integer entries, exact "
+              "equality oracle) and random real shapes to 64 (exact dyadic oracle with the rigorous l*2^-52*sum|a||b| bound)."),
+        design="DESIGN.md §6 C05",
+        technique="Lean 4 proof (loop-nest projection, Finset sums over CommSemiring, decide over translated wiring) + bit-exact correspondence"),
+    "C07": dict(
+        text=("Kernel-checked theorems: the model of `trapz` equals Mathlib's `trapezoidal_integral` for every n, hence is exact for affine integrands, linear, "
+              "antisymmetric in the limits and obeys Mathlib's C2 error bound |b-a|^3 max|f''|/(12 n^2); quad5 is linear/antisymmetric for any table and, for the "
+              "actual doubles of the node/weight tables regenerated from the source on every run, its odd moments are exactly 0 and even moments up to degree 18 "
+              "are within 1e-16 of 2/(d+1) (exact rational arithmetic on the decoded bit patterns); Romberg levels 1-3 are the trapezoid/Simpson/Boole rules with "
+              "cubic and quintic exactness for every tolerance; sampled `trapezoid` equals the piecewise-linear integral, is additive and agrees with the dx form on "
+              "uniform grids. PARTIAL: Romberg exactness beyond 3 levels, the order-of-tolerance clause and all rounding are decided by the bit-exact tie plus an "
+              "exact-rational/mpmath oracle (including the exactly decided stop rule), not by proof."),
+        design="DESIGN.md §6 C07",
+        technique="Lean 4 proof (Mathlib trapezoidal rule transfer, exact dyadic table arithmetic, ring identities) + translated tables + bit-exact correspondence"),
+    "C08": dict(
+        text=("Kernel-checked theorems over any field of characteristic zero / linear order: Welford's aggregate after any list is (n, mean, sum of squared deviations), "
+              "hence mean (through the 8-way unrolled sum), welford_mean, var, sample_var, std, sample_std equal their definitions and the two means agree; the four "
+              "covariance algorithms (two-pass, sample, repaired one-pass and online) equal the textbook (sample) covariance and agree; shift invariance and "
+              "quadratic/bilinear scaling; argmin/argmax return the first index of an extremum (guard: data within the f64::MAX/MIN seeds, the out-of-guard behaviour "
+              "is a separate theorem); min/max equal List.minimum/maximum on NaN-free input; Matrix argmin = (i / ncols, i % ncols); histogram centres are midpoints of "
+              "consecutive edges. PARTIAL: 'within the rounding bound of a stable algorithm' is decided by the bit-exact tie plus an exact-rational oracle with a "
+              "condition-number-scaled bound, not by proof."),
+        design="DESIGN.md §6 C08",
+        technique="Lean 4 proof (loop invariants by induction over the data list, field_simp/ring) + bit-exact correspondence + exact-rational oracle"),
     "C12": dict(
         text=("Kernel-checked theorems (all element types, all operators, all shapes >= 1x1): a value is returned iff the shapes are "
               "NumPy-compatible, it has the element-wise maximum shape, is well formed, and entry (i,j) is left[i|0][j|0] op right[i|0][j|0] "
@@ -19,6 +49,16 @@ CLAIMED = {
               "comparing bit for bit; an independent NumPy-rule oracle supplies the failing input."),
         design="DESIGN.md §6 C12",
         technique="Lean 4 proof (case analysis over the classifier tree) + bit-exact model/implementation correspondence"),
+    "C15": dict(
+        text=("Kernel-checked theorems: the matrix invariant (element count = rows x cols) is preserved by each of the 19 state-changing structural operations and, by "
+              "induction, by every program of them (also for sessions that catch panics); impossible shapes are rejected exactly (iff characterisations of reshape / "
+              "reshape_mut / new incl. the inferred -1 dimension); every operation refines the plain row-major reference (transpose, layout conversion, hcat, vcat, "
+              "repeats, row/column extraction and maps, indexing, reshape keeps the flat data) for all shapes; diag, eye, diag_matrix, toeplitz, vandermonde, design, "
+              "linspace (n points, first a, last b, constant step) and arange (ceil count, half-open) patterns; rotations are orthogonal with determinant 1 and cw = ccw^T in "
+              "any commutative ring with c^2+s^2=1; predicates equal their definitions and close_to never equates values of opposite sign. Tied bit for bit to the Rust "
+              "code by stateful random programs (1..40 ops, 1..8 rows/cols) and constructor sweeps; independent list-of-rows oracle."),
+        design="DESIGN.md §6 C15",
+        technique="Lean 4 proof (invariant by induction over operation lists, row-view refinement, ring/linear_combination) + bit-exact stateful correspondence"),
 }
 
 REASONS = {}
